@@ -243,6 +243,24 @@ func c20APIEditOrder(r *fw.Rec) {
 			r.Violate(fw.Violation{Key: "api-edit/" + key, Input: x, What: "after appending definitions through the API (" + strconv.Itoa(nNew) + " metadata definitions without ID, " + strconv.Itoa(nag) + " attribute groups, the last one #" + strconv.FormatInt(ag.ID, 10) + "): " + what, Observed: y})
 			return
 		}
+		// the same module printed again (every ID is assigned now), and once more with
+		// the definition lists in another slice order: the same text, in order
+		y2, pp2 := printGuard(m)
+		rng.Shuffle(len(m.MetadataDefs), func(i, j int) { m.MetadataDefs[i], m.MetadataDefs[j] = m.MetadataDefs[j], m.MetadataDefs[i] })
+		rng.Shuffle(len(m.AttrGroupDefs), func(i, j int) { m.AttrGroupDefs[i], m.AttrGroupDefs[j] = m.AttrGroupDefs[j], m.AttrGroupDefs[i] })
+		y3, pp3 := printGuard(m)
+		if pp2 != "" || pp3 != "" {
+			r.Violate(fw.Violation{Key: "api-edit/reprint-panic", Input: x, What: "printing the edited module again panics: " + firstLine(pp2+pp3)})
+			return
+		}
+		if y2 != y {
+			r.Violate(fw.Violation{Key: "api-edit/second-print-differs", Input: x, What: "the second print of the edited module differs from the first: " + firstDiffLines(y, y2), Expected: y, Observed: y2})
+			return
+		}
+		if y3 != y {
+			r.Violate(fw.Violation{Key: "api-edit/print-depends-on-slice-order", Input: x, What: "with the metadata and attribute-group lists of the module in another slice order the print differs: " + firstDiffLines(y, y3), Expected: y, Observed: y3})
+			return
+		}
 		r.Nontrivial(y)
 		r.Tally("api_edit", "sections-in-order")
 	}
